@@ -124,8 +124,14 @@ def main(tier, seed, args):
         cfg, pc = scen_payflow.flow_cfg(1, 'free_absent', max_parts=2, max_total_parts=2, pay_outcomes=('error:210', 'pending'),
                                         wait_fail_codes=(203, 204))
         cov = Coverage(['pay'])
-        scen_common.run_configs(rep, PID, c, [('held until the fate is known[1 htlc, 2 outgoing parts]', cfg, pc, [NoFailWhileLive(), cov], {})],
-                                400 if tier == 'quick' else 3000)
+        cfgs = [('held until the fate is known[1 htlc, 2 outgoing parts]', cfg, pc, [NoFailWhileLive(), cov], {})]
+        # ... and after a restart: the replayed HTLC is neither failed nor used to fund a second payment while a part of
+        # the interrupted attempt (two earlier parts, one per attempt group) is still in flight
+        from ..monitors import OneAttempt
+        cfg2, pc2 = scen_payflow.flow_cfg(1, 'pending', pending_parts=2, old_parts_in_groups=True, wait_fail_codes=(203, 204),
+                                          max_total_parts=3, pay_outcomes=('complete',), parts_can_fail=True)
+        cfgs.append(('held until the fate is known[restart, 2 earlier parts]', cfg2, pc2, [NoFailWhileLive(), OneAttempt()], {}))
+        scen_common.run_configs(rep, PID, c, cfgs, 400 if tier == 'quick' else 3000)
     finish(rep, [c], './check C03 --tier ' + tier)
 
 def replay_cex(path):
